@@ -60,6 +60,17 @@ def check(rep, an, tier):
             rep.undecided("R-QTY", "membership operands share a frame", entry=entry, config=res.config, construct="in_hull(P_, B_)")
         CC.bounded_consistency(rep, res, entry, cfg["ub"])
         solver_residual_tolerance(rep, res, entry)
+        if cfg["ub"] == "inf":
+            # unbounded sources: the gamut is the cone  capture(lb) + cone{directions}; the offset removed from vertices and targets
+            # before the conic-combination test must be that apex — the capture of the LOWER BOUNDS (with lb = 0: the baseline)
+            for ev in res.events("membership_call"):
+                P = ev.d["P"]
+                m = P.tag("minus") if P is not None else None
+                st = None if m is None else ("lb" in {o.split("|")[0] for o in m.flat().data})
+                rep.check("R-QTY", "unbounded gamut: the cone is anchored at the capture of the lower bounds", st, where=ev.loc,
+                          construct=f"offset removed before {ev.text()}", entry=entry, config=res.config,
+                          msg="the offset subtracted from the vertices and the targets does not depend on lb: for lb ≠ 0 the cone of an unbounded "
+                              "system is anchored at the wrong point, so targets below the lower bounds (even the all-off capture) are accepted")
         F.qty(rep, res, entry, allow=allow, subs=("mismatch", "literal"))
         R.rule_type_errors(rep, res, "SHAPE", "R-SHAPE", entry)
         R.rule_purity(rep, res, entry)
